@@ -88,20 +88,32 @@ pub fn take_panic_msg() -> String {
 
 /// Normalises a panic message into a class (numbers and paths removed).
 pub fn panic_class(msg: &str) -> String {
-    let loc = msg.rsplit(" at ").next().unwrap_or("");
+    let (text, loc) = match msg.rfind(" at ") {
+        Some(i) => (&msg[..i], &msg[i + 4..]),
+        None => (msg, ""),
+    };
     let file = loc.rsplit('/').next().unwrap_or(loc);
-    let head: String = msg
+    let file = file.split(':').next().unwrap_or(file);
+    let head: String = text
         .chars()
-        .take(48)
+        .take(60)
         .map(|c| if c.is_ascii_digit() { '#' } else { c })
         .collect();
-    format!("panic/{file}/{}", head.replace(['\n', '"'], " "))
+    format!("panic/{file}/{}", head.replace(['\n', '"'], " ").trim())
 }
 
 pub fn generate(prop: &PropDef, tier: &str, seed: u64, index: u64) -> RunSpec {
     let _ = (tier, index);
     match prop.engine {
-        EngineKind::Seq => crate::gen::gen_run(prop.id, seed, &(prop.profile)()),
+        EngineKind::Crash => {
+            let mut p = (prop.profile)();
+            if tier == "thorough" {
+                p.max_ops = 14;
+            }
+            let mut s = crate::gen::gen_run(prop.id, seed, &p);
+            s.extra = serde_json::to_value(crate::crash::default_plan(tier)).unwrap();
+            s
+        }
         _ => crate::gen::gen_run(prop.id, seed, &(prop.profile)()),
     }
 }
@@ -167,6 +179,7 @@ pub fn run_spec(prop: &PropDef, spec: &RunSpec, workdir: &Path, index: u64) -> R
     install_panic_hook();
     match prop.engine {
         EngineKind::Seq => run_seq(prop, spec, workdir, index),
+        EngineKind::Crash => crate::crash::run_crash(prop, spec, workdir, index),
         _ => run_seq(prop, spec, workdir, index),
     }
 }
